@@ -27,3 +27,5 @@ template class hep::distribution_result<double>;
 template class hep::mc_point<double>;
 template class hep::vegas_point<double>;
 template hep::mc_result<double> hep::create_result<double>(std::size_t, std::size_t, std::size_t, double, double);
+template std::vector<double> hep::mid_points_x<double>(hep::distribution_result<double> const&);
+template std::vector<double> hep::mid_points_y<double>(hep::distribution_result<double> const&);
